@@ -35,6 +35,9 @@ CLAIMED = {
  "C15": ("differential runtime monitor: named form pairs (two routes to the same operation) executed on identical generated inputs, outputs and boxed precisions required bit-identical; per-pair evaluation counts in the evidence",
          "Exploration: about 600 named form pairs in six families - fixed Uint<N> vs BoxedUint of 64*N bits for N in 1,2,3,4,8,16,32,64 (arithmetic, bits, shifts, division, by-limb division, sqrt, inv_mod2k, formatting, modular add/sub/neg/mul, special-modulus forms, Montgomery forms, inversion, gcd), constant-time vs _vartime, trait vs inherent, precomputed vs one-shot (reciprocals, inverters), operator forests by value / by reference / assigning and the Wrapping / Checked wrappers against the inherent methods (fixed, and boxed with narrower right-hand sides of BoxedUint / Uint<N> / u8..u128 type, panicking exactly when the checked form is none), and const-evaluated vs run-time (14 literal operand tuples x 23 const fns frozen at harness compile time vs black_box'ed run-time calls); boxed results must have the documented precision.",
          "DESIGN.md §5 C15", "Trusted base: the harness conversions only - no external oracle is involved, each pair compares two routes of the crate against each other, so a defect shared by both routes is invisible here (that is C02-C10's job). Const-vs-run-time compares rustc's const evaluator with the optimized build on a fixed literal bank, not on generated inputs."),
+ "C11": ("panic monitor (catch_unwind around every operation) over two build profiles - opt-level 3 without debug assertions and opt-level 1 with debug assertions + overflow checks - plus a Miri pass in the thorough tier; hostile-argument workload for option/result-returning operations and a sweep re-running the workloads of C02-C10, C12-C20 keeping only panic-class verdicts",
+         "Exploration: (1) hostile-argument workload: ~45 option/result/choice-returning operations each of Limb, Uint (1,2,4,8 limbs), Int, BoxedUint (1..=9 limbs) incl. inversion, Montgomery inv/pow, gcd, sqrt, checked/saturating/wrapping/overflowing forms, fallible random APIs, with zero moduli, zero divisors, non-invertible pairs, shifts / bit counts from {0,1,BITS-1,BITS,BITS+1,2^31,u32::MAX}; every public BoxedUint constructor at sizes 0..=3 limbs x precisions 0..=130 bits followed by ~40 observer operations on the constructed value; 20 fallible decoders (byte/hex/radix/DER/RLP/serde) on arbitrary bytes and precisions: any panic is a violation. (2) sweep: the workloads of the 18 other claimed properties (their checkers already wrap documented-panic forms in panics-iff oracles) re-run in both profiles; unexpected, spurious and missing panics are C11 verdicts. Thorough adds a single-threaded Miri pass of (1).",
+         "DESIGN.md §5 C11", "Trusted base: panic=unwind in both profiles so that catch_unwind observes every panic / overflow trap / failed assertion / bounds check; the expected-panic table is the set of panics-iff oracles in the property modules, derived from the crate documentation. Non-termination is only bounded by a wall-clock watchdog (inconclusive when it fires). Precisions above 2^16 bits are not generated (a precision near u32::MAX allocates 512 MiB per value)."),
  "C12": ("invariant monitor at every producer of NonZero<T>/Odd<T> (raw-limb predicate + stated-byte-order oracle + consumer check)",
          "Exploration: every public producer of NonZero / Odd for Limb, Uint, Int, BoxedUint (new, new_unwrap, to_nz/to_odd, from_u*/From<core::num::NonZero*>, from_be/le_bytes, from_be/le_byte_array, from_be/le_hex, Default/ONE/MAX, conditional_select, abs_sign, widen, as_nz_ref, Odd<Uint> -> Odd<BoxedUint>, serde binary + hex, zeroize, random under zero-prefix streams, MontyParams::modulus) is driven with values that must be rejected and accepted, incl. asymmetric byte strings whose BE/LE readings differ in validity; each produced value is checked on its raw limbs, against the oracle decoding for the STATED byte order, and through a consumer (div_rem / MontyParams).",
          "DESIGN.md §5 C12", FUNC_NOTE),
